@@ -1424,5 +1424,6 @@ pub fn run(cfg: RunCfg) {
     if thorough {
         fakeos::quietly(&mut rep, |rep| enumerate(rep, "enum_fault_pairs", true));
     }
+    fakeos::quietly(&mut rep, |rep| vh_core::fuzz_section!(rep, "sequences", case_strategy, check, "sec_mgmt", "mgmt", 100_000, 300, 10));
     rep.finish();
 }
